@@ -244,7 +244,7 @@ PROPS = {
         explanation="eligibility postcondition of route_request + correlation contracts.",
     ),
     "C13": dict(
-        specs=["packer", "avp", "avp_types", "avp_grouped", "base", "node_model", "peer", "helpers", "c20", "family", "node", "c13"],
+        specs=["packer", "avp", "avp_types", "avp_grouped", "base", "node_model", "peer", "helpers", "c20", "family", "node", "c13", "c19"],
         ground=[ground.c13_event_ownership], replay=replay.generic,
         trusted_base=["socket objects: close()/fileno()/setsockopt() models"],
         assumptions=COMMON_ASSUME + [
@@ -354,9 +354,7 @@ PROPS = {
         trusted_base=["socket / thread environment models; PeerConnection.__init__ starts two workers (assumed constructor contract)"],
         assumptions=COMMON_ASSUME + [
             "the quantitative N vs 10N comparison is a corollary of the per-call balance postconditions and is not executed",
-            "NOT DECIDED: statistics windows (PeerStats) and the clause that a dial attempt failing synchronously releases its "
-            "connection object - the obligation was refuted on the original tree (worker threads and socket leaked; repaired by "
-            "a fix commit) but is not discharged mechanically on the repaired tree (weak composite contract), so it is not claimed",
+            "NOT DECIDED: statistics windows (PeerStats)",
             "handlers are serialized (S5)"],
         level_text="Deductive proof of release postconditions on the real code: every answer sent releases the pending hop-by-hop "
                    "entry and the origin record of its request (send_message/_record_answer); route_answer consumes the pending "
@@ -364,7 +362,8 @@ PROPS = {
                    "send_request removes its waiter on every exit; remove_peer_connection/close_connection_socket remove the "
                    "connection from every table, drop its pending-answer table, close its socket and stop both workers; a "
                    "refused connection (node stopping / peer already connected) is closed and its workers stopped without any "
-                   "table entry; the retransmission window is bounded by its maxlen.",
+                   "table entry; a dial (_connect_to_peer) that leaves no registered connection has closed the socket it created "
+                   "and stopped both workers of its connection object; the retransmission window is bounded by its maxlen.",
         level_note="Per-call balance contracts for all table states; counts over histories follow by induction on the history, "
                    "which is not mechanised.",
         explanation="release postconditions per function.",
